@@ -212,6 +212,10 @@ func init() {
 		},
 	})
 	properties["C07"].Units = append(properties["C07"].Units,
+		Unit{Name: "array-limits-across-documents-and-packages", Harness: "pkg/generator:HarnessC20", Layer: "L3", Only: "C07.",
+			Desc:   "the two-file unit of C20 seen through C07: money.json's definition Base (composed through allOf, same name as a different definition of order.json) carries an array of strings with a symbolic minItems; in every layout (two packages, one package, packages sharing the last path element) and argument order the emitted Money type accepts a symbolic document iff the array is absent or long enough",
+			Bounds: "F=2 files, document arrays <= 2 elements, symbolic minItems",
+			Quick:  map[string]int{"N": 2, "LAYOUTS": 3, "DIRECT": 1}, Panic: "inconclusive"},
 		l3Unit("arrays", map[string]int{"KINDS": 16, "DEPTH": 1, "ITEMKINDS": 3, "NUMSHAPES": 2, "STRSHAPES": 2}, "C07.", "array properties: 4 limit shapes x nullable x required x inline/$ref, items validated by their own schema"),
 		l3Unit("nested-arrays", map[string]int{"KINDS": 16, "DEPTH": 2, "ITEMKINDS": 18, "NUMSHAPES": 1, "ARRSHAPES": 3, "REF": 0}, "C07.", "arrays of arrays with their own limits at each level"))
 	reg(&Property{
